@@ -112,6 +112,21 @@ def rich_doc(rng, variant: int, kind: str = "single", nfig: int = 2) -> dict:
                            "text_color": [[pals[0]]]}]
         rec["kind"] = "single"
         return rec
+    if kind == "listcols":
+        # list-valued cells (several terms / visit numbers per subject): rendered and measured through the data-frame
+        # library's own text form; more than ten elements per cell, long strings, small pages
+        nrows = (26, 31)[variant % 2]
+        cols = [["c0", "str", [f"{('S', 'T')[variant % 2]}{i:02d}" for i in range(nrows)]],
+                ["c1", "list_int", [list(range(variant, variant + 11 + (i * 3) % 9)) for i in range(nrows)]],
+                ["c2", "list_str", [[f"Preferred term number {i} with a fairly long description text ({variant})", "Second",
+                                     "Third"][: 1 + (i + variant) % 3] for i in range(nrows)]]]
+        b = body(3)
+        b["col_rel_width"] = [1, 2, 3] if variant % 2 else [1, 3, 2]
+        rec["page"]["nrow"] = (12, 15)[variant % 2]
+        rec["dfs"], rec["bodies"] = [{"cols": cols}], [b]
+        rec["headers"] = [{"text": ["Subject", "Visits", "Terms"], "text_color": [[pals[0]]]}]
+        rec["kind"] = "single"
+        return rec
     if kind == "figure":
         # first image: a JPEG whose header announces a huge size (size-dependent code paths), then small PNGs
         files = [{"fmt": "jpeg", "w": 12000, "h": 9000, "seed": 100}] + \
@@ -475,6 +490,7 @@ def exec_schedule(arg) -> dict:
     refs = arg["refs"]
     figdir = arg["figdir"]
     os.makedirs(figdir, exist_ok=True)
+    R.apply_ambient(R.plan_ambient(plan["recipes"]))
     if plan.get("cold"):
         # a cold process: the threads' encodes are the first in the process (first-use initialisation, lazily
         # loaded resources and one-time registrations all happen under the scheduler)
@@ -655,6 +671,7 @@ def profile_hot(arg) -> dict:
     from . import boot, state
 
     boot.bootstrap(coop_locks=True)
+    R.apply_ambient(R.plan_ambient(arg["recipes"]))
     if arg.get("cold"):
         R.import_all()
     else:
@@ -809,6 +826,38 @@ def _install_mutator_hooks(hot: dict, boot) -> dict:
         wrap(sys, n, "sys." + n)
     for cm in ("redirect_stdout", "redirect_stderr"):
         wrap(getattr(contextlib, cm), "__enter__", "contextlib." + cm)
+    import logging
+
+    for n in ("setLevel", "addHandler", "removeHandler", "addFilter", "removeFilter"):
+        wrap(logging.Logger, n, "logging.Logger." + n)
+    for n in ("disable", "basicConfig", "setLoggerClass", "captureWarnings"):
+        wrap(logging, n, "logging." + n)
+    # attributes of modules OUTSIDE the package that are set while library code runs (a third-party switch such as
+    # PIL.ImageFile.LOAD_TRUNCATED_IMAGES or sys.stdout flipped for the duration of a call): a module whose class
+    # is a ModuleType subclass can report every assignment
+    import types as _types
+
+    class _ReportingModule(_types.ModuleType):
+        def __setattr__(self, name, value):
+            if not name.startswith("__"):
+                note("module attribute " + self.__name__ + "." + name)
+            _types.ModuleType.__setattr__(self, name, value)
+
+        def __delattr__(self, name):
+            note("module attribute " + self.__name__ + "." + name)
+            _types.ModuleType.__delattr__(self, name)
+
+    for mname, mod in list(sys.modules.items()):
+        if mod is None or type(mod) is not _types.ModuleType:
+            continue
+        top = mname.split(".", 1)[0]
+        if top in ("rtflite", "sim", "builtins", "importlib", "_frozen_importlib", "_frozen_importlib_external",
+                   "threading", "_thread", "types"):
+            continue
+        try:
+            mod.__class__ = _ReportingModule
+        except TypeError:
+            pass
     try:
         import polars as pl
 
@@ -1082,6 +1131,13 @@ def job(j: dict) -> dict:
         # run_in_executor wrappers do it, inside a copy of the launching context (own stream: older seeds keep their plans)
         plan["launch"] = core.rng_for(j["root"], PROP, "launch", idx).choice(["plain", "ctxcopy"])
         plan["cold"] = core.rng_for(j["root"], PROP, "cold", idx).random() < 0.25
+        arng = core.rng_for(j["root"], PROP, "ambient", idx)
+        if arng.random() < 0.2:
+            # the caller's process has non-default settings (display configuration of the data-frame library, decimal
+            # context, warning filters, working directory ...); references are computed under the same settings
+            amb = arng.choice(R.AMBIENTS)
+            for r in plan["recipes"]:
+                r["ambient"] = amb
     refs = ws["refcache"].for_plan(plan)
     t0 = time.monotonic()
     res = run_plan(plan, refs, ws["figdir"])
@@ -1160,6 +1216,9 @@ def sweep_groups(root: int, n_groups: int) -> list:
                 "page_header": None, "page_footer": None, "footnote": None, "source": None, "headers": "default"}
     GF = grouped_doc(["G1", "G2", "G1", "G2", "G3", "G3"], 0)      # fails: G1 is not contiguous
     GG = grouped_doc(["G1", "G1", "G2", "G2", "G3", "G3", "G3", "G4"], 1)
+    # list-valued columns on both threads, in a process whose display configuration the caller has changed
+    LA, LB = rich_doc(rng, 0, "listcols"), rich_doc(rng, 1, "listcols")
+    LA["ambient"] = LB["ambient"] = R.AMBIENTS[0]
     SBs = _json.loads(_json.dumps(SB))
     for c in ("footnote", "source", "title", "page_header", "page_footer"):
         SBs[c] = _json.loads(_json.dumps(SA[c]))  # equal specs: the two documents hold the SAME component objects
@@ -1167,6 +1226,7 @@ def sweep_groups(root: int, n_groups: int) -> list:
               ("equal-valued", SB, _json.loads(_json.dumps(SB))), ("single-vs-failing", SA, failing or SB),
               ("pageby-vs-pageby", PA, PB), ("shared-components", SA, SBs), ("failing-vs-grouped", GF, GG),
               ("same-document", GG, _json.loads(_json.dumps(GG))),
+              ("list-columns", LA, LB),
               ("multi-vs-multi", MA, MB), ("grouped-vs-single", grouped or MB, SA),
               ("figure-vs-single", FA, SB)]
     return groups[:n_groups]
@@ -1332,6 +1392,10 @@ def sweep_jobs(root: int, groups: list, refcache: RefCache, specs: list, hot_inf
         # state in context variables)
         j["plan"]["launch"] = "ctxcopy" if n_ % 2 else "plain"
         j["sweep"]["launch"] = j["plan"]["launch"]
+        if (n_ // 2) % 2 and not R.plan_ambient(j["plan"]["recipes"]):
+            # every other pair: tiny capacities for whatever caches / pools the package has (none on the pinned tree)
+            j["plan"]["recipes"] = [dict(r, ambient={"knobs": "small"}) for r in j["plan"]["recipes"]]
+            j["sweep"]["knobs"] = "small"
     return jobs
 
 
@@ -1339,14 +1403,14 @@ def sweep_jobs(root: int, groups: list, refcache: RefCache, specs: list, hot_inf
 # batch
 # --------------------------------------------------------------------------
 
-TIERS = {"quick": {"runs": 320, "wall": 420.0, "groups": 9, "hot_cap": 600, "hot3_cap": 100,
+TIERS = {"quick": {"runs": 320, "wall": 420.0, "groups": 10, "hot_cap": 600, "hot3_cap": 100,
                    "cold_groups": (0, 1, 2, 4, 7, 8), "cold_cap": 150,
                    "sweeps": [(0, "call", 96), (1, "call", 96), (2, "call", 12), (3, "call", 128), (4, "call", 96),
                               (5, "call", 4096), (6, "call", 96), (7, "call", 24), (8, "call", 32), (8, "grid2", 16),
-                              (0, "line", 768)]},
-         "thorough": {"runs": 60000, "wall": 3000.0, "groups": 12, "hot_cap": 4000, "hot3_cap": 2500,
-                      "cold_groups": tuple(range(12)), "cold_cap": 4000,
-                      "sweeps": [(i, "callret", 1) for i in range(12)] + [(i, "line", 4) for i in range(12)]
+                              (9, "call", 64), (0, "line", 768)]},
+         "thorough": {"runs": 60000, "wall": 3000.0, "groups": 13, "hot_cap": 4000, "hot3_cap": 2500,
+                      "cold_groups": tuple(range(13)), "cold_cap": 4000,
+                      "sweeps": [(i, "callret", 1) for i in range(13)] + [(i, "line", 4) for i in range(13)]
                       + [(8, "grid2", 2), (7, "grid2", 4), (3, "grid2", 64)]}}
 
 
